@@ -2013,7 +2013,18 @@ class Interp:
         if isinstance(t, ast.Name):
             cur = self.e_Name(ast.Name(id=t.id, ctx=ast.Load()), env)
             if isinstance(cur, list) and op == '+':
-                cur.extend(self.iter_concrete(self.eval(s.value, env), s))
+                v = self.eval(s.value, env)
+                try:
+                    cur.extend(self.iter_concrete(v, s))
+                except Unsupported:
+                    # concrete prefix + symbolic sequence: becomes a list of symbolic length
+                    if not all(is_intlike(x) for x in cur):
+                        raise
+                    from .symlist import SymList
+                    sl = SymList.empty(self, t.id)
+                    for x in cur:
+                        sl.sym_method(self, 'append', [x], {})
+                    env.set(t.id, sl.sym_iadd(self, v))
                 return
             if hasattr(cur, 'sym_iadd') and op == '+':
                 env.set(t.id, cur.sym_iadd(self, self.eval(s.value, env)))
